@@ -161,6 +161,8 @@ def pattern(draw, classes=None, max_atoms=6, alphabet=None, min_atoms=1):
                 pos[1][0] += 0.5
     else:  # generic / planar
         n = draw(st.integers(max(2, min_atoms), max_atoms))
+        if n > 8:
+            ext = 3.5
         pos = [[draw(grid_float(-ext, ext)), draw(grid_float(-ext, ext)),
                 0.0 if cls == "planar" else draw(grid_float(-ext, ext))] for _ in range(n)]
         pos = _separate(pos)
@@ -388,7 +390,7 @@ DECOYS = ["near-miss", "mirror", "element", "loose", "loose", "out-of-plane"]
 def planted(draw, max_copies=4, pattern_classes=None, cell_classes=None, with_decoys=True, with_hints=True,
             atols=None, min_width_extra=0.0, width_factor=1.0, max_atoms=6, min_atoms=1, tightness=None,
             pose_classes=None, noise_levels=(0.0, 1 / 64.0, 1 / 32.0), min_copies=1, pat=None, extra_diam=None,
-            decoy_kinds=None, bystanders=0):
+            decoy_kinds=None, bystanders=0, oop_range=(2.05, 3.4)):
     """a periodic structure with planted copies of a pattern.  Returns a JSON-able case dict:
     cell, spos, sels, ppos, pels, atol, hints, seeds, meta"""
     atol = draw(st.sampled_from(atols or ATOLS))
@@ -453,7 +455,7 @@ def planted(draw, max_copies=4, pattern_classes=None, cell_classes=None, with_de
                 if len(q) >= 3 and s_[-1] < 1e-6 * max(1.0, s_[0]):
                     nrm = vt[-1]
                     j = draw(st.integers(0, n - 1))
-                    q[j] = q[j] + nrm * atol * draw(st.floats(2.05, 3.4)) * draw(st.sampled_from([-1.0, 1.0]))
+                    q[j] = q[j] + nrm * atol * draw(st.floats(*oop_range)) * draw(st.sampled_from([-1.0, 1.0]))
                 else:
                     kind = "near-miss"
                     j = draw(st.integers(0, n - 1))
